@@ -2,6 +2,7 @@ package main
 
 import (
 	"math/rand"
+	"runtime"
 	"sync"
 	"sync/atomic"
 
@@ -14,6 +15,7 @@ func init() {
 	comps["atomicvalue-stress"] = stressAtomicValue
 	comps["pool-stress"] = stressPool
 	comps["atomicvalue-count"] = countAtomicValue
+	comps["pool-holders"] = holdersPool
 }
 
 type avS struct{ A, B int } // a comparable struct type, to exercise CompareAndSwap on non-scalar values
@@ -254,6 +256,71 @@ func countAtomicValue(plan []M, out *Out, _ []string) {
 				}
 				out.Emit(M{"ev": "casinc", "start": 1, "succ": total, "final": v.Load()})
 			}
+		}
+	}
+}
+
+// Pool under real parallelism: many more goroutines than processors, each holding up to four items at a time.  Every item is
+// a unique token with a holder counter that is incremented right after Get returned it and decremented right before it is
+// Put back; the largest counter value any goroutine ever saw is reported.  A value above 1 means two Get callers held the
+// same item at once.  (No lock is shared between the goroutines, so the pool is exercised at full speed.)
+func holdersPool(plan []M, out *Out, _ []string) {
+	for _, p := range plan {
+		nt, nops, rounds, hasNew := num(p, "threads"), num(p, "ops"), num(p, "rounds"), boolean(p, "hasnew")
+		for r := 0; r < rounds; r++ {
+			const maxTok = 1 << 16
+			holders := make([]int32, maxTok)
+			var next int64 = 999
+			pool := &sync2.Pool[int]{}
+			if hasNew {
+				pool.New = func() int { return int(atomic.AddInt64(&next, 1)) }
+			}
+			maxSeen := make([]int32, nt)
+			gets := make([]int, nt)
+			var wg sync.WaitGroup
+			start := make(chan struct{})
+			for t := 0; t < nt; t++ {
+				wg.Add(1)
+				go func(t int) {
+					defer wg.Done()
+					rng := rand.New(rand.NewSource(int64(num(p, "seed")*100000 + r*1000 + t)))
+					held := []int{}
+					<-start
+					for i := 0; i < nops; i++ {
+						if len(held) < 4 && (len(held) == 0 || rng.Intn(2) == 0) {
+							x := pool.Get()
+							if x == 0 { // New is nil and the pool was empty: introduce a token of our own
+								x = int(atomic.AddInt64(&next, 1))
+							}
+							gets[t]++
+							if h := atomic.AddInt32(&holders[x%maxTok], 1); h > maxSeen[t] {
+								maxSeen[t] = h
+							}
+							held = append(held, x)
+						} else {
+							j := rng.Intn(len(held))
+							x := held[j]
+							held = append(held[:j], held[j+1:]...)
+							atomic.AddInt32(&holders[x%maxTok], -1)
+							pool.Put(x)
+						}
+						if i%8 == 0 {
+							runtime.Gosched()
+						}
+					}
+				}(t)
+			}
+			close(start)
+			wg.Wait()
+			m, g := int32(0), 0
+			for t := 0; t < nt; t++ {
+				if maxSeen[t] > m {
+					m = maxSeen[t]
+				}
+				g += gets[t]
+			}
+			out.Emit(M{"ev": "reset", "hasnew": hasNew})
+			out.Emit(M{"ev": "holders", "max": m, "gets": g, "hasnew": hasNew})
 		}
 	}
 }
